@@ -33,8 +33,11 @@ def run_designer(name, keys, seed, rounds, batch):
   for r in range(rounds):
     if restart and r in (1, 2, rounds // 2):
       md = d.dump()
-      d = ds[name](prob, seed)
-      d.load(md)
+      # as a hosting policy does: a new instance built without a seed, then restored - for the designers whose checkpoint
+      # carries their random stream; NSGA-II's does not (its stream is not part of its state), it is rebuilt with the seed
+      d2 = ds[name](prob, None if name in ('eagle', 'quasi_random', 'shuffled_grid') else seed)
+      d2.load(md)
+      d = d2
     sugg = list(d.suggest(batch))
     out.append([sorted((k, v if isinstance(v, str) else float(v)) for k, v in s.parameters.as_dict().items()) for s in sugg])
     trials = []
